@@ -86,11 +86,15 @@ def strip_time(c):
         return ("ok", "meta", dict(c[2], time=0))
     return c
 
+XC_TRANSCRIPTS = []      # (transcript, hash queries) of `crash` peeks, re-evaluated inside Coq by the caller (extraction cross-check)
+
 def model_states(setup_ops, ops, target):
     """crash states (parsed dumps) of ops[target] in the model, after setup_ops and ops[:target]"""
     m = ModelProc()
+    m.transcript = []
     try:
         m.reset()
+        m.transcript.clear(); m.queries.clear()
         for op in setup_ops + ops[:target]:
             m.cmd(O.model_line(op))
         first, extra = m.cmd("crash " + O.model_line(ops[target]))
@@ -100,6 +104,8 @@ def model_states(setup_ops, ops, target):
                 cur = []; states.append(cur)
             else:
                 cur.append(l)
+        if len(XC_TRANSCRIPTS) < 6:
+            XC_TRANSCRIPTS.append((list(m.transcript), list(m.queries)))
         return [O.parse_model_dump(s) for s in states]
     finally:
         m.close()
@@ -188,6 +194,13 @@ def suite_kill_under_fault(binf, tier, rng):
         T.EXTRA_INJECT[:] = []
     return out
 
+def crash_crosscheck():
+    """the model's crash states used above were produced by the extracted driver: re-evaluate a few of those transcripts inside
+    Coq (Drive.drive, vm_compute) and let Coq compare"""
+    from . import xcheck
+    trs = list(XC_TRANSCRIPTS); XC_TRANSCRIPTS.clear()
+    return xcheck.cross_check([], max_chars=400000, transcripts=trs)
+
 def suite_kill(binf, tier, rng, which):
     """which = "C03" (content oracle + model membership at every kill point / torn temp write) or
        "C04" (old-or-new lookups, other keys, content present when new, continuation, index append torn at every length)"""
@@ -275,6 +288,11 @@ def suite_kill(binf, tier, rng, which):
                     else:
                         out["failures"].append({"concrete": False, "text": f"{tag}: the surviving tree is not among the model's {len(mstates)} crash states",
                                                 "replay": dict(rep, tree=a["tree"])})
+    if binf == "sync":
+        n, probs = crash_crosscheck()
+        out["crash_states_rechecked_in_coq"] = n
+        for pr in probs:
+            out["failures"].append({"concrete": False, "text": "extraction cross-check of the crash states: " + pr, "replay": {}})
     return out
 
 def _c04_oracle(a, before, after_ref, keys, data):
